@@ -279,6 +279,7 @@ Section CoverRun.
     | Deliver (MReq q _) => negb (q =? p)
     | Deliver MCancel => false
     | MAssign _ _ => false
+    | Wild q _ => negb (q =? p)       (* unrestricted stragglers on the watched partition: known finding F11 *)
     | KErr code wm lows => wm || negb ((code =? 1) || (code =? 2)) || (low_of lows p <=? LB)
     | _ => true
     end.
@@ -336,7 +337,7 @@ Section CoverRun.
     Inv (fst (rstep cfg s op)) (em ++ emp (snd (rstep cfg s op))).
   Proof.
     intros HI Hok. pose proof HI as [H1 [H2 [H3 H4]]].
-    destruct op as [q k|q d|q d|q o|q o|code wm lows| |ps| |q f tt|cerr pcs|m| |q]; cbn [rstep ok_op] in *.
+    destruct op as [q k|q d|q d|q o|q o|code wm lows| |ps| |q f tt|cerr pcs|m| |q|q d]; cbn [rstep ok_op] in *.
     - apply inv_pump. exact HI.
     - destruct (Z.eq_dec q p) as [->|Hq].
       + apply inv_rec_p; [exact HI|]. intros n Hn. unfold stale_offset. rewrite Hn. lia.
@@ -375,6 +376,10 @@ Section CoverRun.
         destruct (rec_step cfg s p n) as [s1 out]. cbn [fst snd] in *. apply inv_crash. exact HI'.
       + destruct (inv_rec_other cfg p f0 t LB s em q n Hq HI) as [Ha Hb].
         destruct (rec_step cfg s q n) as [s1 out]. cbn [fst snd] in *. unfold emp. rewrite Hb, app_nil_r. apply inv_crash. exact Ha.
+    - assert (Hq : q <> p) by lia. unfold wild_step.
+      destruct (pget q (cli s)) as [n|]; [|cbn [fst snd]; apply Inv_mono; exact HI].
+      destruct (pget q (active s)); [|cbn [fst snd]; apply Inv_mono; exact HI].
+      destruct (inv_rec_other cfg p f0 t LB s em q (n + 1 + Z.abs d) Hq HI) as [Ha Hb]. unfold emp. rewrite Hb, app_nil_r. exact Ha.
   Qed.
 
   (* all recovery events of p emitted during a run *)
